@@ -347,7 +347,7 @@ pub(super) fn derive_schema(input: TokenStream) -> syn::Result<TokenStream> {
 
         } else {
             let mut variant_schemas = Vec::with_capacity(variants.len());
-            for mut v in variants {
+            for v in variants {
                 let variant_attrs = VariantAttributes::new(&v.attrs)?;
 
                 if variant_attrs.serde.skip
@@ -371,21 +371,14 @@ pub(super) fn derive_schema(input: TokenStream) -> syn::Result<TokenStream> {
 
                 let is_unit = matches!(v.fields, Fields::Unit);
 
-                /* preprocess `#[serde(rename_all_fields)]` of enum */
-                if let (
-                    Fields::Named(FieldsNamed { brace_token:_, named }),
-                    Some((span, case))
-                ) = (
-                    &mut v.fields,
-                    container_attrs.serde.rename_all_fields.value()?
-                ) {
-                    for f in named {
-                        f.ident = Some(Ident::new(
-                            &case.apply_to_field(&f.ident.as_ref().unwrap(/* Named */).unraw().to_string()),
-                            span
-                        ));
-                    }
-                }
+                /* the fields of a variant are renamed by its own `rename_all`, else by `rename_all_fields` of the enum */
+                /* ( `rename_all` of the enum is for the names of its variants, not of their fields ) */
+                let mut fields_attrs = ContainerAttributes::default();
+                fields_attrs.serde.rename_all = if variant_attrs.serde.rename_all.value()?.is_some() {
+                    variant_attrs.serde.rename_all.clone()
+                } else {
+                    container_attrs.serde.rename_all_fields.clone()
+                };
 
                 let mut schema = if let Some(schema_with) = &variant_attrs.openapi.schema_with {
                     let schema_with = syn::parse_str::<Path>(schema_with)?;
@@ -393,8 +386,7 @@ pub(super) fn derive_schema(input: TokenStream) -> syn::Result<TokenStream> {
                         #schema_with()
                     }
                 } else {
-                    /* not `container_attrs`: `rename_all` of an enum is for the names of its variants, not of their fields */
-                    schema_of_fields(v.fields, &ContainerAttributes::default())?
+                    schema_of_fields(v.fields, &fields_attrs)?
                 };
 
                 schema = match (
